@@ -32,14 +32,17 @@ def tla_set(xs):
 
 
 def consts(ctx, ntasks=2, faults=1, racing=False, kinds=ALLKINDS, layouts=("own", "shared"), states=("CONFIGURED", "RUNNING"),
-           watch=("select", "unsub", "busy"), hooks=("none",), devs=None, strict=False, fine=False):
+           watch=("select", "unsub", "busy"), hooks=("none",), devs=None, strict=False, fine=False, stale=0, mup=0, extras=None):
     d = {c: ctx.deviation_open(k) for c, k in DEVS.items()} if devs is None else devs
     lines = ["  NTasks = %d" % ntasks, "  MaxFaults = %d" % faults, "  Racing = %s" % ("TRUE" if racing else "FALSE"),
+             "  MaxStale = %d" % stale, "  MaxMup = %d" % mup,
              "  Kinds = %s" % tla_set(kinds), "  Layouts = %s" % tla_set(layouts), "  InitStates = %s" % tla_set(states),
              "  InitWatch = %s" % tla_set(watch), "  GoErrHooks = %s" % tla_set(hooks),
              "  FineChains = %s" % ("TRUE" if fine else "FALSE"), "  Strict = %s" % ("TRUE" if strict else "FALSE")]
     for c in DEVS:
         lines.append("  %s = %s" % (c, "TRUE" if d[c] else "FALSE"))
+    if extras is not None:
+        lines.append("  Extras = %s" % tla_set(extras))
     return "\n".join(lines)
 
 
@@ -49,6 +52,7 @@ def cfg_model(ctx, **kw):
 
 
 def cfg_gen(ctx, **kw):
+    kw.setdefault("extras", ("none",))
     return "SPECIFICATION GenSpec\nCONSTANTS\n%s\nINVARIANT PrintCase\nCHECK_DEADLOCK FALSE\n" % consts(ctx, **kw)
 
 
@@ -92,6 +96,8 @@ def scenario(sid, shape, script, long_ms, origin="gen"):
     me = {"env": "e1"}
     observe = {"do": "poll", "env": "e1", "until": ANYSTATE, "timeout_ms": 3000}
     steps = []
+    if any(x[0] in ("latereply", "stale") or (x[0] == "api" and x[2] == "owed") for x in script):
+        steps += [{"do": "c03track"}]
     wpoint = "env.watch.recv"
     # --- setup: reach the initial state of the model -----------------------------------------
     if shape["watch"] == "unsub":
@@ -118,6 +124,13 @@ def scenario(sid, shape, script, long_ms, origin="gen"):
         elif s[0] == "api":
             ncall += 1
             caller = "A%d" % ncall
+            if s[2] == "owed":
+                # the simulated executor withholds this task's answer: the transition stays in progress and the task owes it
+                ev = s[1]
+                steps += [{"do": "script", "rule": {"class": cls_of[s[3]], "event": ev, "outcome": "silent", "times": 1}},
+                          {"do": "control", "env": "e1", "op": OPS[s[1]], "caller": caller},
+                          {"do": "waitcmd", "class": cls_of[s[3]], "op": ev, "timeout_ms": 5000}, {"do": "settle", "ms": 40}]
+                continue
             if s[2] == "early":
                 txpoint = "env.lock.acquired"
                 steps += [{"do": "gate", "point": txpoint, "match": {"env": "e1", "what": OPS[s[1]]}}]
@@ -141,28 +154,56 @@ def scenario(sid, shape, script, long_ms, origin="gen"):
             steps += [{"do": "ungate", "point": txpoint}, {"do": "await", "caller": "A%d" % ncall}, {"do": "settle", "ms": 40}]
         elif s[0] == "releasew":
             steps += [{"do": "ungate", "point": wpoint}, {"do": "settle", "ms": 40}]
+        elif s[0] == "latereply":
+            # the withheld answer arrives now (for a task that died meanwhile: it was on its way)
+            steps += [{"do": "latereply", "class": cls_of[s[1]]}, {"do": "await", "caller": "A%d" % ncall, "timeout_ms": 20000},
+                      {"do": "settle", "ms": 40}]
+        elif s[0] == "stale":
+            # a duplicated / late answer of the dead task's last command: a stale healthy state message
+            steps += [{"do": "latereply", "class": cls_of[s[1]]}, {"do": "settle", "ms": 60}]
+        elif s[0] == "mupdate":
+            steps += [{"do": "masterupdate", "class": cls_of[s[1]], "kind": s[2]}, {"do": "settle", "ms": 60}]
+        elif s[0] == "armf":
+            steps += [{"do": "gate", "point": "env.watch.fire", "match": me}]
+        elif s[0] == "releasef":
+            # "beyond the grace period" means: the timer callback has started (it is parked at its first hook point)
+            if crit_hit:
+                steps += [{"do": "waitgate", "point": "env.watch.fire", "timeout_ms": 3000}]
+            steps += [{"do": "ungate", "point": "env.watch.fire"}, {"do": "settle", "ms": 40}]
     # --- verdict window: ERROR needs the watcher's 500 ms plus processing; the deadline only bounds
     # "nothing more will happen" (long when a critical task was hit, short otherwise) -----------
     steps += [{"do": "poll", "env": "e1", "until": ["ERROR"], "timeout_ms": long_ms if crit_hit else 1500},
               {"do": "settle", "ms": 250}, {"do": "snapshot"}]
     model = {"tasks": tasks, "hook": shape["hook"], "layout": shape["layout"], "state": shape["state"], "watch": shape["watch"],
              "script": script, "origin": origin, "crit_hit": crit_hit}
-    return {"id": sid, "family": "C03", "agents": AGENTS, "files": files, "core": {}, "scripts": [], "hooks": hooks, "steps": steps,
-            "model": model}
+    scn = {"id": sid, "family": "C03", "agents": AGENTS, "files": files, "core": {}, "scripts": [], "hooks": hooks, "steps": steps,
+           "model": model}
+    if any(x[0] in ("latereply", "stale") for x in script) and any(x[0] == "fault" and x[1] in ("EXECUTOR_LOST", "AGENT_LOST") for x in script):
+        # After GO_ERROR the watcher sends STOP to every task whose state is RUNNING - also to the dead one whose stale answer made
+        # it look RUNNING. Its agent/executor id was blanked by the failure handler, so no answer can match and the core's single
+        # command queue stays blocked for the 90 s timeout: such a scenario gets a core of its own.
+        scn["isolated"] = True
+    return scn
 
 
 def instant_of(shape, script):
-    """Where the (first) fault strikes, for the violation signature."""
+    """Where the (first) fault strikes and what surrounds it, for the violation signature."""
     parts = []
     if shape["watch"] in ("busy", "unsub"):
         parts.append("watcher-" + shape["watch"])
+    seen = False
     for s in script:
         if s[0] == "fault":
-            break
-        if s[0] == "armw":
+            seen = True
+        elif s[0] == "armw" and not seen:
             parts.append("watcher-armed")
-        if s[0] == "api":
+        elif s[0] == "api" and not seen:
             parts.append("%s-%s" % (s[1].lower(), s[2]))
+        elif s[0] == "mupdate":
+            parts.append("after-master-update-" + s[2])
+        elif s[0] in ("stale", "latereply") and seen:
+            parts.append("then-" + ("stale-state" if s[0] == "stale" else "late-answer") + ("-within-grace" if "armf" in [x[0] for x in script]
+                         and script.index(s) < [x[0] for x in script].index("releasef") else ""))
     return "+".join(parts) or "idle"
 
 
@@ -254,8 +295,24 @@ def pick(ctx, cases, quick):
          lambda c: (kinds(c), victim_crit(c), c[0]["state"]), 1)
     # refused GO_ERROR
     take(lambda c: c[0]["hook"] != "none", lambda c: (c[0]["hook"], c[0]["state"], victim_crit(c)), 1 if quick else 2)
+    fault_of = lambda c: [s for s in c[1] if s[0] == "fault"][0]
+    steps_of = lambda c: tuple(s[0] for s in c[1])
+    # a master-generated TASK_RUNNING update (no executor id / no ids) for the later victim, then every failure kind
+    take(lambda c: two(c) and c[1][0][0] == "mupdate" and c[1][0][1] == fault_of(c)[2] and c[0]["layout"] == "own" and victim_crit(c),
+         lambda c: (kinds(c), c[1][0][2]), 1 if quick else 2)
+    take(lambda c: two(c) and c[1][0][0] == "mupdate" and c[1][0][1] == fault_of(c)[2] and mixed(c) and not victim_crit(c),
+         lambda c: c[1][0][2], 1 if quick else 3)
+    # a task dies owing its answer to the racing transition; the answer arrives within / beyond the watcher's grace period
+    owed = lambda c: c[1][0][0] == "api" and c[1][0][2] == "owed"
+    take(lambda c: two(c) and owed(c) and c[1][0][3] == fault_of(c)[2] and victim_crit(c),
+         lambda c: (steps_of(c), c[1][0][1]), 1 if quick else 4)
+    take(lambda c: two(c) and owed(c) and (c[1][0][3] != fault_of(c)[2] or not victim_crit(c)) and any(c[0]["crit"].values()),
+         lambda c: (c[1][0][3] == fault_of(c)[2], victim_crit(c)), 1 if quick else 3)
+    # a stale healthy state message of the dead task, within / beyond the grace period
+    take(lambda c: two(c) and "stale" in steps_of(c) and fault_of(c)[2] == [s for s in c[1] if s[0] == "stale"][0][1] and victim_crit(c),
+         lambda c: steps_of(c) if quick else (steps_of(c), c[0]["state"], kinds(c)), 1)
     if quick:
-        take(lambda c: c[0]["hook"] == "none", lambda c: 0, 8)
+        take(lambda c: c[0]["hook"] == "none", lambda c: 0, 4)
     else:
         take(lambda c: len(c[0]["crit"]) == 3 and c[0]["hook"] == "none", lambda c: (pattern(c), kinds(c), c[0]["state"]), 1, limit=170)
         take(lambda c: len(kinds(c)) == 2, lambda c: (pattern(c), kinds(c)), 1, limit=170)
@@ -268,22 +325,32 @@ def run(ctx):
     ctx.assumptions += [
         "Mesos master, agents and executors are simulated; every task of one agent shares one executor, so EXECUTOR_LOST and AGENT_LOST hit the same tasks",
         "'its process dies' is injected as TASK_FAILED; a task that announced TASK_INTERNAL_ERROR answers every later command with an error (state ERROR)",
-        "a task's pending state update is applied before its failure is processed (model: Settled); races inside the role tree are C11's subject",
+        "a task may die owing its answer to a command and a stale healthy state message of a dead task may be processed after its failure (model: late, StaleUpdate; harness: withheld / duplicated answer sent by the simulated executor); races inside the role tree are C11's subject",
+        "master-generated status updates are TASK_RUNNING with SOURCE_MASTER, no uuid, no executor id and optionally no agent id",
         "flat workflows (root with 1-3 task roles); deadline for ERROR = poll of 10-15 s after the last gate opened (the code needs 0.5 s + processing); when no critical task was hit 1.5 s + quiescence",
         "a command sent to a task that dies before answering (90 s timeout in the code) is covered by the model (TxFail) but not run on the real core",
     ]
     ctx.rule = ("scenario = (workflow shape: 1-3 tasks x criticality x executor layout x optional failing before_GO_ERROR hook; live state; "
-                "watcher position; script of gates, racing API transition and faults) enumerated by TLC from FailureGen; stratified seeded sample; "
+                "watcher position; script of gates, racing API transition (parked early / late, or one answer withheld), master-generated status update, "
+                "faults, late answers and stale state messages, watcher timer held or not) enumerated by TLC from FailureGen; stratified seeded sample; "
                 "non-trivial = a critical task is hit or a transition races")
     # ---- 1. the model: code as it is (open deviations excused), exhaustively, with liveness ------
     w = min(8, vlib.NCPU)
-    ctx.model_check("Failure", None, workers=w, cfg_text=cfg_model(ctx, hooks=("none", "early", "late")))
-    ctx.model_check("Failure", None, workers=w, cfg_text=cfg_model(ctx, racing=True, watch=("select", "busy") if quick else ("select", "unsub", "busy")))
-    if not quick:
-        ctx.model_check("Failure", None, workers=w, cfg_text=cfg_model(ctx, ntasks=3, layouts=("own", "shared", "mixed")))
-        ctx.model_check("Failure", None, workers=w, cfg_text=cfg_model(ctx, faults=2))
-        ctx.model_check("Failure", None, workers=w, cfg_text=cfg_model(ctx, ntasks=2, fine=True, watch=("select", "busy"), layouts=("own",)))
-        few = ["TASK_FAILED", "TASK_FINISHED", "AGENT_LOST", "INTERNAL_ERROR"]
+    few = ["TASK_FAILED", "TASK_FINISHED", "AGENT_LOST", "INTERNAL_ERROR"]
+    # idle environment: every kind, a stale healthy state message of the dead task, a master-generated TASK_RUNNING update
+    ctx.model_check("Failure", None, workers=w, cfg_text=cfg_model(ctx, stale=1, mup=1))
+    ctx.model_check("Failure", None, workers=w, cfg_text=cfg_model(ctx, hooks=("early", "late"), kinds=["TASK_FAILED", "AGENT_LOST"] if quick else ALLKINDS,
+                                                                   watch=("select",) if quick else ("select", "unsub", "busy")))
+    # racing API transition: a task may die owing its answer, the answer may be processed after the failure
+    if quick:
+        ctx.model_check("Failure", None, workers=w, cfg_text=cfg_model(ctx, racing=True, watch=("select",), layouts=("own",),
+                                                                       kinds=["TASK_FAILED", "AGENT_LOST", "INTERNAL_ERROR"]))
+    else:
+        ctx.model_check("Failure", None, workers=w, cfg_text=cfg_model(ctx, racing=True))
+        ctx.model_check("Failure", None, workers=w, cfg_text=cfg_model(ctx, racing=True, stale=1, watch=("select", "busy")))
+        ctx.model_check("Failure", None, workers=w, cfg_text=cfg_model(ctx, ntasks=3, layouts=("own", "shared", "mixed"), stale=1, mup=1))
+        ctx.model_check("Failure", None, workers=w, cfg_text=cfg_model(ctx, faults=2, stale=1))
+        ctx.model_check("Failure", None, workers=w, cfg_text=cfg_model(ctx, ntasks=2, fine=True, watch=("select", "busy"), layouts=("own",), stale=1))
         ctx.model_check("Failure", None, workers=w, cfg_text=cfg_model(ctx, ntasks=2, fine=True, racing=True, watch=("select", "busy"),
                                                                        layouts=("own",), kinds=few))
         ctx.model_check("Failure", None, workers=w, cfg_text=cfg_model(ctx, ntasks=3, racing=True, watch=("select", "busy"),
@@ -313,12 +380,16 @@ def run(ctx):
         ctx.model_runs.append({"module": "Failure", "cfg": "only %s, plain properties" % c, "distinct": r.distinct, "generated": r.generated,
                                "result": "violated:" + violated[0] + " (expected; replayed on the real core)", "wall_s": round(r.wall, 1)})
         ctx.log("deviation %s: TLC counterexample (%s) -> %s %s" % (key, violated[0], shape, script))
-    # the repaired design satisfies the plain properties
-    r = ctx.model_check("Failure", None, workers=w, cfg_text=cfg_model(ctx, devs=none, strict=True, hooks=("none", "early", "late")))
+    # the repaired design satisfies the plain properties (it reads the workflow state when the watcher subscribes: a stale
+    # healthy state message processed before the subscription is outside what it repairs, hence no "unsub" with stale > 0)
+    rep = [cfg_model(ctx, devs=none, strict=True, stale=1, mup=1, watch=("select", "busy"), kinds=few if quick else ALLKINDS,
+                     layouts=("own",) if quick else ("own", "shared"))]
     if not quick:
-        ctx.model_check("Failure", None, workers=w, cfg_text=cfg_model(ctx, devs=none, strict=True, racing=True))
-    if ctx.model_runs[-1]["result"] != "ok" or r.violated:
-        raise vlib.Inconclusive("MODEL: the repaired design violates a property: %s" % ctx.model_runs[-1])
+        rep += [cfg_model(ctx, devs=none, strict=True, hooks=("none", "early", "late")), cfg_model(ctx, devs=none, strict=True, racing=True)]
+    for cfg in rep:
+        ctx.model_check("Failure", None, workers=w, cfg_text=cfg)
+        if ctx.model_runs[-1]["result"] != "ok":
+            raise vlib.Inconclusive("MODEL: the repaired design violates a property: %s" % ctx.model_runs[-1])
     # ---- 3. scenarios from the model ---------------------------------------------------------------
     cases = []
 
@@ -334,8 +405,14 @@ def run(ctx):
             cases.append((c[1], [list(s) for s in c[2]]))
         return len(recs)
 
-    n1 = gen(racing=True)
+    racekinds = ["TASK_FAILED", "TASK_KILLED", "AGENT_LOST", "INTERNAL_ERROR"]
+    n1 = gen()
+    n1 += gen(racing=True, kinds=racekinds, watch=("select",)) if quick else gen(racing=True)
     n2 = gen(hooks=("early", "late"), kinds=["TASK_FAILED", "AGENT_LOST"], watch=("select",), layouts=("own",))
+    # a master-generated TASK_RUNNING update before the fault; a task that dies owing its answer to the racing transition;
+    # a stale healthy state message of the dead task - within and beyond the watcher's 500 ms
+    n5 = gen(racing=True, stale=1, mup=1, kinds=NOT_IE, watch=("select",), layouts=("own",) if quick else ("own", "shared"),
+             extras=("mup", "owed", "stale"))
     n3 = n4 = 0
     if not quick:
         n3 = gen(ntasks=3, layouts=("own", "mixed"), watch=("select", "busy"), racing=True,
@@ -354,8 +431,8 @@ def run(ctx):
     for shape, script in chosen:
         sid += 1
         scenarios.append(scenario(sid, shape, script, long_ms))
-    ctx.log("cases from TLC: %d (+%d hook, +%d three tasks, +%d two faults), distinct %d; scenarios: %d (%d from counterexamples)"
-            % (n1, n2, n3, n4, len(cases), len(scenarios), len(cex_cases)))
+    ctx.log("cases from TLC: %d (+%d hook, +%d master update / owed answer / stale state, +%d three tasks, +%d two faults), distinct %d; "
+            "scenarios: %d (%d from counterexamples)" % (n1, n2, n5, n3, n4, len(cases), len(scenarios), len(cex_cases)))
     by_id = {s["id"]: s for s in scenarios}
     for s in scenarios:
         m = s["model"]
